@@ -47,6 +47,54 @@ check("C15", "proof",
       "DESIGN.md §3 C15")
 
 
+check("C16", "proof",
+      "Initialisation and frame obligations, one per store site, generated from the real ASTs of every class in "
+      "parser/decoder/encoder/grammar/token on every run: configuration fields are written only by constructors, the "
+      "per-call fields doc/errors are assigned in parse() before anything reads them (followed through super().parse), "
+      "nothing stores to globals, class attributes or the shared default-argument objects of the lexer, and the returned "
+      "module carries a fresh errors list. Hence each call's module, errors attribute and exception are a function of the "
+      "constructor arguments and the text alone. A bounded reuse-vs-fresh differential runs alongside (not proof).",
+      "Trusted: the frame back end's syntactic store enumeration (dynamic setattr/__dict__ fail closed); state inside C "
+      "extensions (re/strptime caches, warnings registry) is out of model.",
+      "contract-based verification: initialisation/frame obligations discharged by a syntactic data-flow checker over the real AST; bounded reuse differential as labelled stand-in",
+      "DESIGN.md §3 C16")
+
+
+check("C13", "proof",
+      "A `modifies nothing` frame obligation for every store / in-place mutator call site in every method of the four encoder "
+      "classes, generated from the real AST on every run and discharged by the frame back end, with exactly one permitted site - "
+      "the documented PDS3 GROUP->OBJECT conversion `module[k] = self.objcls(v)` - whose effect on the caller's container is the "
+      "proved C10 contract of __setitem__; that contract drops a later item with the same name, which is the recorded finding "
+      "KF-C13-dupkey (carve-out, still replayed every run). Determinism obligations (no time/random/environment reads) give "
+      "repeatability. A bounded snapshot-before/after driver runs alongside (not proof).",
+      "Trusted: the frame back end's conservative points-to classification; set iteration order is fixed within a process; "
+      "quantity-class attribute getters are pure; C10's proof for the effect of the one permitted store.",
+      "contract-based verification: frame (modifies) obligations per store site over the real AST + C10 callee contract for the permitted mutation; bounded snapshot driver as stand-in",
+      "DESIGN.md §3 C13")
+
+check("C11", "other",
+      "Mixed: `.copy()` and the constructor chain are verified with the T_seq engine (fresh object of the same class, equal list, "
+      "original unchanged; ownership obligations keep the private lists from escaping), and obligation R1 pins down on the real "
+      "class what __reduce__ hands to CPython's copy/pickle machinery (class, a fresh list of the pairs, the remaining instance "
+      "attributes). The step from R1 to copy.copy / copy.deepcopy / pickle results is the *assumed* contract of that machinery "
+      "(C code, outside the verifier's reach) and is decided only by the bounded driver: containers up to 4 items, depth 2, "
+      "4 classes, 4 mechanisms incl. every pickle protocol, all mutation sequences <= 2 on either side.",
+      "Trusted: pyvc/z3/sequence axioms as in C10; the copy/pickle reduction protocol (assumed, bounded-checked).",
+      "contract-based deductive verification of .copy() and the reduction contract (pyvc T_seq + ground obligations); copy/pickle protocol assumed and bounded-checked",
+      "DESIGN.md §3 C11")
+
+check("C12", "exploration",
+      "Whole-text conformance depends on where textwrap.wrap breaks lines, which no contract within reach expresses; it is "
+      "decided by a bounded run of an independent line-level conformance reader (hard-coded character sets, keyword families, "
+      "line ends, indentation, alignment, end statements) over an exhaustive small universe of modules x 4 encoders x option "
+      "grids plus seeded random modules. The deductive part is limited to ground obligations fixing the dialect constants and "
+      "the non-overridable PDS3 line end/delimiter; it is reported separately and not counted as deciding the property.",
+      "Bounded: module universe and option grid as recorded in the evidence. Seven recorded findings (known_findings.json) are "
+      "carved out by key and replayed every run.",
+      "bounded conformance reader as labelled stand-in (no contract expresses textwrap's line breaking); ground obligations on dialect constants",
+      "DESIGN.md §3 C12")
+
+
 def main():
     props = [json.loads(l) for l in open(os.path.join(ROOT, "properties.jsonl"))]
     na = []
